@@ -11,7 +11,7 @@
       an hour of the week without any residual comes out occupied (bool(NaN)); a data set without any complete row
       gives an all-NaN lookup.
    Definitions only; proofs are in Proofs/CalTrackFitProofs.v. *)
-From Coq Require Import ZArith QArith List Bool String.
+From Coq Require Import ZArith QArith List Bool String PrimFloat.
 From V Require Import Generated.CalTrackTables Model.CalTrack.
 Import ListNotations.
 
@@ -122,12 +122,26 @@ Definition n_positive (rows : list (Z * bool)) (h : Z) : nat := List.length (fil
 (* ratio_positive_residuals = n_positive_residuals / n_residuals *)
 Definition ratio (p n : nat) : Q := (inject_Z (Z.of_nat p) / inject_Z (Z.of_nat n))%Q.
 
-(* _is_high_usage, then .reindex(range(168)).astype(bool): NaN (no residual for that hour) becomes True *)
-Definition occupied_flag (thr : Q) (rows : list (Z * bool)) (h : Z) : bool :=
-  match n_residuals rows h with
+(* _is_high_usage, then .reindex(range(168)).astype(bool): NaN (no residual for that hour) becomes True.
+   flag_q is the rule as the property states it, over exact rationals (theorems); flag_f is the rule as the code
+   evaluates it, `n_positive / float(n) > threshold` in binary64 (execution): the two differ only when the exact ratio
+   lies within rounding distance of the threshold without being equal to it (e.g. 14/20 against the double nearest 0.7);
+   for the default threshold they agree for every count up to 400 (C18_ex_occupancy_float_rule_agrees) *)
+Definition flag_q (thr : Q) (p n : nat) : bool :=
+  match n with
   | O => true
-  | n => Qltb thr (ratio (n_positive rows h) n)
+  | _ => Qltb thr (ratio p n)
   end.
+Definition fdiv (a b : float) : float := PrimFloat.div a b.
+Definition flag_f (thr : float) (p n : nat) : bool :=
+  match n with
+  | O => true
+  | _ => fltb thr (fdiv (Z2F (Z.of_nat p)) (Z2F (Z.of_nat n)))
+  end.
+Definition occupied_flag (thr : Q) (rows : list (Z * bool)) (h : Z) : bool :=
+  flag_q thr (n_positive rows h) (n_residuals rows h).
+Definition occupied_flag_f (thr : float) (rows : list (Z * bool)) (h : Z) : bool :=
+  flag_f thr (n_positive rows h) (n_residuals rows h).
 
 Definition hours_of_week : list Z := map Z.of_nat (seq 0 168).
 
@@ -135,3 +149,6 @@ Definition hours_of_week : list Z := map Z.of_nat (seq 0 168).
 Definition occupancy_lookup (no_data : bool) (thr : Q) (rows : list (Z * bool)) : list (option bool) :=
   if no_data then map (fun _ => None) hours_of_week
   else map (fun h => Some (occupied_flag thr rows h)) hours_of_week.
+Definition occupancy_lookup_f (no_data : bool) (thr : float) (rows : list (Z * bool)) : list (option bool) :=
+  if no_data then map (fun _ => None) hours_of_week
+  else map (fun h => Some (occupied_flag_f thr rows h)) hours_of_week.
